@@ -176,7 +176,7 @@ def gen_fit_case(rng, i, allow_plateau=False):
         kw["optimal_fit_edelta"] = True
         kw["optimal_fit_num_samples"] = rng.choice([7, 8, 12])   # (n <= 6: scipy filtfilt raises ValueError)
         kw["range_type"] = "absolute"
-        kw["range_x"] = rng.choice([[0, 0], [-1e-6, 1e-6], [-np.inf, 5e-7]])
+        kw["range_x"] = rng.choice([[0, 0], [-1e-6, 1e-6], [-np.inf, 5e-7], [5e-7, -5e-6], (1e-6, -1e-6)])
     elif r < 0.55:
         kw["range_type"] = "absolute"
         choice = rng.random()
